@@ -256,3 +256,6 @@ MUTANTS += [
  ('C08', 'T-copyrest-releases-lock-only-at-end', 'FileStorage/fspack.py', None, None),
 ]
 MUTANTS = [m for m in MUTANTS if m[3] is not None and m[1] not in EQUIVALENT]
+MUTANTS += [
+ ('C09', 'voted-tail-accepted-at-open', FS, "        if pos + (tl + 8) > file_size or status == 'c':", "        if pos + (tl + 8) > file_size:"),
+]
